@@ -16,9 +16,14 @@
      4 big_rel    a[0] = [N], a[1] = x, a[2] = y, a[3] = [eL; eR] -> [eq] [cmp] [eq] [is0 L; is0 R]
      5 big_sort   a[0] = [N], a[1..] -> sorted
      6 sw_rel     a[2] = coeff a, a[3] = coeff b, a[4] = generator x ++ y, a[5] = [s1; s2; k; l; w],
-                  a[6] = raw X ++ Y, a[7] = lambda_L, a[8] = lambda_R, a[9] = [eL; eR; normL; normR]
-                  -> [L==R] [L==R] [L.is_zero; R.is_zero] [La==Ra; La==Ra] [L==Ra; La==R; Ra==L; R==La]
-                     [La.is_zero; Ra.is_zero]
+                  a[6] = raw X ++ Y, a[7] = lambda_L, a[8] = lambda_R, a[9] = [eL; eR; normL; normR],
+                  a[10] = [flagA; flagB], a[11] = TA x ++ y, a[12] = TB x ++ y   (raw affine base points,
+                  anywhere on the curve; flag 0 = identity):  A = TA + s1 G, B = TB + s2 G
+                  (a[0][3] = index of the curve among those over the same field, harness only)
+                  -> [L==R; R==L] [hash L = hash R] [L.is_zero; R.is_zero; L==0; R==0; 0==L; 0==R]
+                     [La==Ra; hash La = hash Ra; Ra==La] [L==Ra; La==R; Ra==L; R==La]
+                     [La.is_zero; Ra.is_zero; La==Affine 0; Ra==Affine 0]
+                     normalize_batch [L; R] = [N0; N1]: [N0==La; N1==Ra; N0==N1; N0.is_zero; N1.is_zero]
      7 sw_params  -> a[1] a[2] a[3] a[4]
      8 te_rel     as sw_rel with a[3] = coeff d, a[6] = raw z
      9 te_params
@@ -101,8 +106,11 @@ Section RunField.
         let G := Some (el F (arg 4 a) 0, el F (arg 4 a) 1) in
         let s1 := argz 5 0 a in let s2 := argz 5 1 a in
         let k := argz 5 2 a in let l := argz 5 3 a in
-        let A := sw_to_affine F (sw_mul F ca s1 (sw_of_affine F G)) in
-        let B := sw_to_affine F (sw_mul F ca s2 (sw_of_affine F G)) in
+        (* base points given by raw affine coordinates (anywhere on the curve); flag 0 = identity *)
+        let TA := if argz 10 0 a =? 0 then None else Some (el F (arg 11 a) 0, el F (arg 11 a) 1) in
+        let TB := if argz 10 1 a =? 0 then None else Some (el F (arg 12 a) 0, el F (arg 12 a) 1) in
+        let A := sw_to_affine F (sw_add F ca (sw_of_affine F TA) (sw_mul F ca s1 (sw_of_affine F G))) in
+        let B := sw_to_affine F (sw_add F ca (sw_of_affine F TB) (sw_mul F ca s2 (sw_of_affine F G))) in
         let rx := el F (arg 6 a) 0 in let ry := el F (arg 6 a) 1 in
         let mk e lam nrm :=
           let P := sw_rescale F lam (swexpr F ca e A B k l rx ry) in
@@ -111,12 +119,19 @@ Section RunField.
         let R := mk (argz 9 1 a) (el F (arg 8 a) 0) (argz 9 3 a) in
         let La := sw_into_affine F L in let Ra := sw_into_affine F R in
         let LA := sw_to_affine F L in let RA := sw_to_affine F R in
-        ok [[b2z (sw_eqb F L R)]; [b2z (sw_eqb F L R)];
-            [b2z (sw_is_zero F L); b2z (sw_is_zero F R)];
-            [b2z (sw_raw_eqb F La Ra); b2z (sw_raw_eqb F La Ra)];
+        let Z := sw_zero F in
+        let Za := sw_raw_of_aff F None in
+        let nb := map (sw_raw_of_aff F) (sw_normalize_batch F [L; R]) in
+        let N0 := nth 0 nb Za in let N1 := nth 1 nb Za in
+        ok [[b2z (sw_eqb F L R); b2z (sw_eqb F R L)]; [b2z (sw_eqb F L R)];
+            [b2z (sw_is_zero F L); b2z (sw_is_zero F R); b2z (sw_eqb F L Z); b2z (sw_eqb F R Z);
+             b2z (sw_eqb F Z L); b2z (sw_eqb F Z R)];
+            [b2z (sw_raw_eqb F La Ra); b2z (sw_raw_eqb F La Ra); b2z (sw_raw_eqb F Ra La)];
             [b2z (sw_proj_eq_aff F L RA); b2z (sw_aff_eq_proj F LA R);
              b2z (sw_aff_eq_proj F RA L); b2z (sw_proj_eq_aff F R LA)];
-            [b2z (sw_aff_is_zero La); b2z (sw_aff_is_zero Ra)]]
+            [b2z (sw_aff_is_zero La); b2z (sw_aff_is_zero Ra); b2z (sw_raw_eqb F La Za); b2z (sw_raw_eqb F Ra Za)];
+            [b2z (sw_raw_eqb F N0 La); b2z (sw_raw_eqb F N1 Ra); b2z (sw_raw_eqb F N0 N1);
+             b2z (sw_aff_is_zero N0); b2z (sw_aff_is_zero N1)]]
     | 7 => ok [arg 1 a; arg 2 a; arg 3 a; arg 4 a]
     | _ => unsupported
     end.
@@ -129,8 +144,11 @@ Section RunField.
         let G := (el F (arg 4 a) 0, el F (arg 4 a) 1) in
         let s1 := argz 5 0 a in let s2 := argz 5 1 a in
         let k := argz 5 2 a in let l := argz 5 3 a in
-        let A := te_to_affine F (te_mul F ca cd s1 (te_of_affine F G)) in
-        let B := te_to_affine F (te_mul F ca cd s2 (te_of_affine F G)) in
+        (* base points given by raw affine coordinates (anywhere on the curve); flag 0 = (0, 1) *)
+        let TA := if argz 10 0 a =? 0 then te_aff_zero F else (el F (arg 11 a) 0, el F (arg 11 a) 1) in
+        let TB := if argz 10 1 a =? 0 then te_aff_zero F else (el F (arg 12 a) 0, el F (arg 12 a) 1) in
+        let A := te_to_affine F (te_add F ca cd (te_of_affine F TA) (te_mul F ca cd s1 (te_of_affine F G))) in
+        let B := te_to_affine F (te_add F ca cd (te_of_affine F TB) (te_mul F ca cd s2 (te_of_affine F G))) in
         let rz := el F (arg 6 a) 0 in
         let mk e lam nrm :=
           let P := te_rescale F lam (teexpr F ca cd e A B k l rz) in
@@ -138,12 +156,19 @@ Section RunField.
         let L := mk (argz 9 0 a) (el F (arg 7 a) 0) (argz 9 2 a) in
         let R := mk (argz 9 1 a) (el F (arg 8 a) 0) (argz 9 3 a) in
         let LA := te_hash_key F L in let RA := te_hash_key F R in
-        ok [[b2z (te_eqb F L R)]; [b2z (te_eqb F L R)];
-            [b2z (te_is_zero F L); b2z (te_is_zero F R)];
-            [b2z (te_aff_eqb F LA RA); b2z (te_aff_eqb F LA RA)];
+        let Z := te_zero F in
+        let Za := te_aff_zero F in
+        let nb := te_normalize_batch F [L; R] in
+        let N0 := nth 0 nb Za in let N1 := nth 1 nb Za in
+        ok [[b2z (te_eqb F L R); b2z (te_eqb F R L)]; [b2z (te_eqb F L R)];
+            [b2z (te_is_zero F L); b2z (te_is_zero F R); b2z (te_eqb F L Z); b2z (te_eqb F R Z);
+             b2z (te_eqb F Z L); b2z (te_eqb F Z R)];
+            [b2z (te_aff_eqb F LA RA); b2z (te_aff_eqb F LA RA); b2z (te_aff_eqb F RA LA)];
             [b2z (te_proj_eq_aff F L RA); b2z (te_aff_eq_proj F LA R);
              b2z (te_aff_eq_proj F RA L); b2z (te_proj_eq_aff F R LA)];
-            [b2z (te_aff_is_zero F LA); b2z (te_aff_is_zero F RA)]]
+            [b2z (te_aff_is_zero F LA); b2z (te_aff_is_zero F RA); b2z (te_aff_eqb F LA Za); b2z (te_aff_eqb F RA Za)];
+            [b2z (te_aff_eqb F N0 LA); b2z (te_aff_eqb F N1 RA); b2z (te_aff_eqb F N0 N1);
+             b2z (te_aff_is_zero F N0); b2z (te_aff_is_zero F N1)]]
     | 9 => ok [arg 1 a; arg 2 a; arg 3 a; arg 4 a]
     | _ => unsupported
     end.
